@@ -11,6 +11,9 @@ Three kinds of operations (one line each, self-contained):
                                                                          with /<host>/tcp/<port>[/p2p/<peer of key k>]
                                                                          (observation since round tcp3: `… ep=<host kind of the
                                                                          connection's endpoint address>`, judged by C10)
+  (round gtcp: `dialed=h<k>` / `exp=h<k>` = the SHA2-256 form PeerId::from_multihash(Sha2_256.digest(protobuf(key k))) of the id)
+  dl a=<s|r|k>{1..4} t=<ms> [cancel=<ms>]                               a real TcpTransport opens addresses that stall / refuse / answer;
+                                                                         the overall dial deadline (checks/tcp_poll.py; judged by C05)
   pn q=<items> [in=<n> acc=<0|1>] [neg=1]                                a real TcpTransport with scripted READY results in its queues,
                                                                          polled with a counting waker (checks/tcp_poll.py; judged by C05)
 Payloads are built here by hand (protobuf) with REAL ed25519 signatures obtained from the adapter's `sign`/`pubkey`
@@ -49,7 +52,9 @@ MANIFEST = {
             "pairs under a scripted byte-level man-in-the-middle and against a rogue endpoint running the real Noise code "
             "with forged payloads, real negotiate_connection over loopback TCP, two real TcpTransports on loopback driven through "
             "the real Transport::open (+negotiate) and Transport::dial with /ip4, /ip6, /dns, /dns4, /dns6 addresses x expected "
-            "peer right / wrong / absent; and a property-level oracle that knows "
+            "peer right / wrong / absent / written in SHA2-256 form (of the listener's key and of another key: PeerId equality is "
+            "structural, dialed_mismatch_any_address_family clauses 5-6: a hashed expectation of an inlined key is always "
+            "PeerIdMismatch, a connection is reported only under the proven id); and a property-level oracle that knows "
             "which identity key signed which static key (recorded by a guarded hook at the moment of signing).",
     "note": "Trusted: Lean kernel; axioms propext/Classical.choice/Quot.sound; the hand-written models and their tie "
             "(sampled/exhaustive differential runs through adapter src/verif/c01.rs); ed25519, X25519, ChaCha20-Poly1305, "
@@ -594,7 +599,9 @@ def nc_ops(rng, full):
         d, l = rng.sample(range(NKEYS), 2)
         o = rng.choice([x for x in range(NKEYS) if x not in (d, l)])
         ops += [f"nc d={d} l={l} dialed={l}", f"nc d={d} l={l} dialed=none", f"nc d={d} l={l} dialed={o}",
-                f"nc d={d} l={l} dialed={d}"]
+                f"nc d={d} l={l} dialed={d}",
+                # the expectation in SHA2-256 form ("Qm..."): of the key the listener proves, of another key
+                f"nc d={d} l={l} dialed=h{l}", f"nc d={d} l={l} dialed=h{rng.choice([o, d])}"]
     offs = range(64, 232) if full else [64, 65, 100, 111, 112, 113, 200, 231]
     for off in offs:
         d, l = rng.sample(range(NKEYS), 2)
@@ -615,6 +622,8 @@ def tp_ops(rng, full):
                 o = rng.choice([x for x in range(NKEYS) if x not in (d, l)])
                 ops += [f"tp via={via} host={host} d={d} l={l} exp={l}", f"tp via={via} host={host} d={d} l={l} exp={o}"]
                 ops.append(f"tp via={via} host={host} d={d} l={l} exp={rng.choice(['none', d])}")
+                # the expected peer in SHA2-256 form: the listener's own key / a different key — every entry point and host kind
+                ops += [f"tp via={via} host={host} d={d} l={l} exp=h{l}", f"tp via={via} host={host} d={d} l={l} exp=h{rng.choice([o, d])}"]
     rng.shuffle(ops)
     return ops
 
@@ -670,6 +679,8 @@ def model_lines(case, impl):
         elif op.startswith("tp ") and o in ("D=" + w for w in TP_ENV) and " env=" not in op:
             # a fact about the sandbox (name resolution, loopback families, scheduling): the model has no opinion
             res.append(op + " env=" + o[2:])
+        elif op.startswith("dl ") and o.startswith("D=env:") and " env=" not in op:
+            res.append(op + " env=" + o[6:])
         else:
             res.append(op)
     return res
@@ -790,9 +801,17 @@ def oracle(case, out):
             elif t[0] == "nc":
                 a = kvs(t[1:])
                 obs = {k: side(x) for k, x in kvs(o.split()).items()}
+                # an expectation in SHA2-256 form (h<k>) is compared structurally with the identity-form id the handshake
+                # derives: it never matches — for k != l the property demands the rejection, for k == l (same key, other
+                # representation) the code rejects as well (observed; Props/C01 dialed_mismatch_any_address_family)
                 mismatch = a["dialed"] not in ("none", a["l"])
+                same_key_other_form = a["dialed"] == "h" + a["l"]
                 tampered = "flip" in a
-                if mismatch or tampered:
+                if same_key_other_form and not tampered:
+                    # the property allows both answers (the node proved the dialed KEY); only a foreign identity is wrong
+                    if obs["D"][0] == "ok" and obs["D"][1] not in ("k" + a["l"], "h" + a["l"]):
+                        v("wrong-identity", f"connection reported for {obs['D'][1]}, the listener proved k{a['l']}", i)
+                elif mismatch or tampered:
                     for name, (st, p, own) in obs.items():
                         if st == "ok":
                             v("connection", f"{name} reported a connection ({o!r}) although "
@@ -810,7 +829,11 @@ def oracle(case, out):
                 what, _, rest = first.partition(":")
                 connected = what in ("opened", "established")      # (the `ep=` part is C10's subject: tp_endpoint_oracle)
                 where = f"TcpTransport::{a['via']} with a /{a['host']}/ address"
-                if a["exp"] not in ("none", a["l"]):
+                if a["exp"] == "h" + a["l"]:
+                    # same key, SHA2-256 representation: the property allows a rejection as well as a connection for that key
+                    if connected and rest not in ("k" + a["l"], "h" + a["l"]):
+                        v("wrong-identity", f"{where}: connection reported for {rest}, the listener is k{a['l']}", i)
+                elif a["exp"] not in ("none", a["l"]):
                     if connected:
                         v("connection", f"{where} naming the peer of key {a['exp']} yielded a connection ({o!r}) although the "
                           f"node there proved the identity of key {a['l']}", i)
@@ -849,7 +872,8 @@ def stats(case, out, acc):
             bump(acc, "nc:" + " ".join(x.split("@")[0].split(":k")[0] for x in o.split()))
         elif w[0] == "tp":
             a = kvs(w[1:])
-            exp = "none" if a.get("exp") == "none" else "listener" if a.get("exp") == a.get("l") else "other"
+            exp = "none" if a.get("exp") == "none" else "listener" if a.get("exp") == a.get("l") else \
+                "listener-sha256" if a.get("exp") == "h" + str(a.get("l")) else "other-sha256" if str(a.get("exp")).startswith("h") else "other"
             bump(acc, f"tp:{a.get('via')}:{a.get('host')}:exp-{exp}:" + o.split(":k")[0])
     bump(acc, "cases")
 
